@@ -153,6 +153,15 @@ fn install_seams(plan: &Plan) {
     } else {
         vh::set_defer_decider(None);
     }
+    // knob io_yield_pct: that share of asynchronous socket sends yields once before completing (as a real socket with
+    // a momentarily full buffer does) - the only way two tasks can interleave inside a send path that has no other await
+    let ypct = plan.knob("io_yield_pct", 0).clamp(0, 100) as u64;
+    if ypct > 0 {
+        let mut y = Rng::new(mix(plan.sched.rng_seed, 0x696f7969656c64));
+        vh::set_io_yield_decider(Some(Box::new(move || y.below(100) < ypct)));
+    } else {
+        vh::set_io_yield_decider(None);
+    }
     vh::set_virtual_wall_clock(true);
     vh::set_local_ip_override(Some("10.0.0.9".parse().unwrap()));
     vh::set_initial_tsn_override(None);
@@ -162,6 +171,7 @@ fn clear_seams() {
     vh::set_random_source(None);
     vh::set_certificate_source(None);
     vh::set_defer_decider(None);
+    vh::set_io_yield_decider(None);
     vh::set_udp_binder(None);
     vh::set_initial_tsn_override(None);
     vh::set_local_ip_override(None);
